@@ -466,6 +466,9 @@ func (x *exec) havoc(s *State, m *modSet, consts map[*Term]bool, tag string) *St
 	}
 	sort.Strings(wkeys)
 	for _, key := range wkeys {
+		if e.isFinal(key) {
+			continue
+		}
 		so := e.heapSorts[key]
 		h := c.Fresh(tag+".H{"+key+"}", so)
 		consts[h] = true
